@@ -23,7 +23,7 @@ pub enum Op {
     Val { ty: usize, f: bool, with: bool },
     Atw { ty: usize, ok: bool, inner: Vec<Inner>, f: bool },
     Slice { kind: u8, ety: usize, n: usize, f: bool }, // kind 0 copy,1 clone,2 str(ety ignored),3 fill_with,4 fill_copy,5 fill_clone,6 fill_default,7 fill_iter
-    TFill { ety: usize, n: usize, errat: Option<usize>, iter: bool },
+    TFill { ety: usize, n: usize, errat: Option<usize>, iter: bool, inner: Vec<Inner> },
     /// slice fill with droppable elements; the closure / Clone / iterator panics at index `at` (None = never)
     PFill { kind: u8, n: usize, at: Option<usize> },
     /// alloc_try_with / try_alloc_try_with whose initialiser panics
@@ -80,12 +80,13 @@ impl Op {
                 format!("atw ty={} ret={} inner={} f={}", ty, if *ok { "ok" } else { "err" }, inner_to_str(inner), b(f))
             }
             Op::Slice { kind, ety, n, f } => format!("slice kind={} ety={} n={} f={}", kind, ety, n, b(f)),
-            Op::TFill { ety, n, errat, iter } => format!(
-                "tfill ety={} n={} errat={} iter={}",
+            Op::TFill { ety, n, errat, iter, inner } => format!(
+                "tfill ety={} n={} errat={} iter={} inner={}",
                 ety,
                 n,
                 errat.map(|e| e.to_string()).unwrap_or("-".into()),
-                b(iter)
+                b(iter),
+                inner_to_str(inner)
             ),
             Op::PFill { kind, n, at } => format!("pfill kind={} n={} at={}", kind, n, at.map(|e| e.to_string()).unwrap_or("-".into())),
             Op::PAtw { ty, f } => format!("patw ty={} f={}", ty, b(f)),
@@ -119,7 +120,7 @@ impl Op {
                 f: fb("f"),
             },
             "slice" => Op::Slice { kind: u("kind")? as u8, ety: u("ety")?, n: u("n")?, f: fb("f") },
-            "tfill" => Op::TFill { ety: u("ety")?, n: u("n")?, errat: kv(&toks, "errat").and_then(parse_usize), iter: fb("iter") },
+            "tfill" => Op::TFill { ety: u("ety")?, n: u("n")?, errat: kv(&toks, "errat").and_then(parse_usize), iter: fb("iter"), inner: inner_from_str(kv(&toks, "inner").unwrap_or("-")) },
             "pfill" => Op::PFill { kind: u("kind")? as u8, n: u("n")?, at: kv(&toks, "at").and_then(parse_usize) },
             "patw" => Op::PAtw { ty: u("ty")?, f: fb("f") },
             "aalloc" => Op::AAlloc { sz: u("sz")?, al: u("al")? },
@@ -361,7 +362,7 @@ pub fn gen_op(r: &mut Rng, prof: Profile, m: usize, uniform: Option<usize>, c: &
             3 => {
                 let ety = uniform_ety(a);
                 let n = r.range(0, 40) as usize;
-                Op::TFill { ety, n, errat: if r.chance(1, 2) && n > 0 { Some(r.below(n as u64) as usize) } else { None }, iter: r.chance(1, 2) }
+                Op::TFill { ety, n, errat: if r.chance(1, 2) && n > 0 { Some(r.below(n as u64) as usize) } else { None }, iter: r.chance(1, 2), inner: vec![] }
             }
             4 => Op::Slice { kind: r.pick(&[0u8, 1, 3, 4, 5, 6, 7]), ety: uniform_ety(a), n: r.range(0, 60) as usize, f: r.chance(1, 3) },
             5 => Op::Reset,
@@ -422,7 +423,17 @@ pub fn gen_op(r: &mut Rng, prof: Profile, m: usize, uniform: Option<usize>, c: &
                 let ety = r.below(N_ETYPES as u64) as usize;
                 let n = gen_count(r, ety, c.cap_left, false).min(100_000);
                 let errat = if n > 0 && r.chance(3, 5) { Some(r.below(n.min(64) as u64) as usize) } else { None };
-                Op::TFill { ety, n, errat, iter: r.chance(1, 2) }
+                // a third of the time the fill closure itself allocates from the arena (and keeps or releases the block)
+                let mut inner = vec![];
+                if n > 0 && r.chance(1, 3) {
+                    let k = 1 + r.below(2);
+                    for _ in 0..k {
+                        let a = 1usize << r.below(4);
+                        let sz = r.range(1, 40) as usize;
+                        inner.push(if r.chance(2, 3) { Inner::Keep(sz, a) } else { Inner::Release(sz, a) });
+                    }
+                }
+                Op::TFill { ety, n, errat, iter: r.chance(1, 2), inner }
             }
             5 => {
                 let al = gen_align(r, m);
@@ -584,6 +595,34 @@ impl Drop for DefTok {
         types::DROPS.with(|d| d.borrow_mut().push(id));
     }
 }
+
+/// An `ExactSizeIterator` whose `len()` under-reports: after the `claimed` items of `inner` it yields `extra` more
+/// (default values).  Code that trusts `len()` for the size of a buffer must stop pulling after `len()` items.
+pub struct Surplus<I: Iterator> {
+    pub inner: I,
+    pub claimed: usize,
+    pub extra: usize,
+}
+impl<T: Default, I: Iterator<Item = T>> Iterator for Surplus<I> {
+    type Item = T;
+    fn next(&mut self) -> Option<T> {
+        match self.inner.next() {
+            Some(x) => {
+                self.claimed = self.claimed.saturating_sub(1);
+                Some(x)
+            }
+            None if self.extra > 0 => {
+                self.extra -= 1;
+                Some(T::default())
+            }
+            None => None,
+        }
+    }
+    fn size_hint(&self) -> (usize, Option<usize>) {
+        (self.claimed, Some(self.claimed))
+    }
+}
+impl<T: Default, I: Iterator<Item = T>> ExactSizeIterator for Surplus<I> {}
 
 #[derive(Clone, Debug)]
 pub struct Blk {
@@ -1326,6 +1365,10 @@ impl<const M: usize> Exec<M> {
                             (5, true) => b.try_alloc_slice_fill_clone(*n, &one).map_err(|_| ())?.as_ptr() as usize,
                             (6, false) => b.alloc_slice_fill_default::<T>(*n).as_ptr() as usize,
                             (6, true) => b.try_alloc_slice_fill_default::<T>(*n).map_err(|_| ())?.as_ptr() as usize,
+                            // every other time the iterator yields more items than its `len()` announces (an
+                            // `ExactSizeIterator` is a safe trait): the surplus must be ignored, never written
+                            (_, false) if tag % 2 == 1 => b.alloc_slice_fill_iter(Surplus { inner: src.iter().copied(), claimed: src.len(), extra: 3 }).as_ptr() as usize,
+                            (_, true) if tag % 2 == 1 => b.try_alloc_slice_fill_iter(Surplus { inner: src.iter().copied(), claimed: src.len(), extra: 3 }).map_err(|_| ())?.as_ptr() as usize,
                             (_, false) => b.alloc_slice_fill_iter(src.iter().copied()).as_ptr() as usize,
                             (_, true) => b.try_alloc_slice_fill_iter(src.iter().copied()).map_err(|_| ())?.as_ptr() as usize,
                         })
@@ -1366,7 +1409,7 @@ impl<const M: usize> Exec<M> {
                     Err(_) => (Res::Panic, evs),
                 }
             }
-            Op::TFill { ety, n, errat, iter } => {
+            Op::TFill { ety, n, errat, iter, inner } => {
                 let tag = self.next_tag();
                 let tok_id = tag;
                 let b = self.bump.as_ref().unwrap();
@@ -1375,9 +1418,30 @@ impl<const M: usize> Exec<M> {
                 let total = esz * *n; // n is bounded by the generator
                 let pat = pattern(tag, total);
                 let calls = std::cell::RefCell::new(Vec::<usize>::with_capacity(128));
+                let inner_ptrs = std::cell::RefCell::new(Vec::<usize>::with_capacity(8));
                 types::clear_drops();
                 let (r, evs) = crate::with_ety!(*ety, T => {
-                    let item = |i: usize| -> Result<T, Tok> { if Some(i) == *errat { Err(Tok(tok_id)) } else { Ok(mk::<T>(&pat[i*esz..])) } };
+                    let item = |i: usize| -> Result<T, Tok> {
+                        if i == 0 {
+                            // the closure's own arena traffic (first call only)
+                            for x in inner.iter() {
+                                match x {
+                                    Inner::Keep(s, a) => {
+                                        let l = Layout::from_size_align(*s, *a).unwrap();
+                                        match b.try_alloc_layout(l) { Ok(p) => inner_ptrs.borrow_mut().push(p.as_ptr() as usize), Err(_) => inner_ptrs.borrow_mut().push(0) }
+                                    }
+                                    Inner::Release(s, a) => {
+                                        let l = Layout::from_size_align(*s, *a).unwrap();
+                                        match (&b).allocate(l) {
+                                            Ok(p) => { inner_ptrs.borrow_mut().push(p.as_ptr() as *mut u8 as usize); unsafe { (&b).deallocate(p.cast(), l) } }
+                                            Err(_) => inner_ptrs.borrow_mut().push(0),
+                                        }
+                                    }
+                                }
+                            }
+                        }
+                        if Some(i) == *errat { Err(Tok(tok_id)) } else { Ok(mk::<T>(&pat[i*esz..])) }
+                    };
                     galloc::record(|| catch_unwind(AssertUnwindSafe(|| -> Result<usize, Tok> {
                         if *iter {
                             let k = errat.map(|e| e + 1).unwrap_or(*n);
@@ -1405,9 +1469,43 @@ impl<const M: usize> Exec<M> {
                         }
                         let id = self.add_block(p, total, eal, false, pat);
                         write!(extra, " id={}", id).ok();
-                        (Res::Ok(p), evs)
+                        let ptrs = inner_ptrs.borrow().clone();
+                        for (k, x) in inner.iter().enumerate() {
+                            if let (Inner::Keep(sz, a), Some(ip)) = (x, ptrs.get(k)) {
+                                if *ip != 0 {
+                                    let id = self.add_block(*ip, *sz, *a, true, vec![]);
+                                    self.fill_block(id);
+                                }
+                            }
+                        }
+                        if inner.is_empty() { (Res::Ok(p), evs) } else { (Res::OkInner(p, ptrs), evs) }
                     }
                     Ok(Err(tok)) => {
+                        let ptrs = inner_ptrs.borrow().clone();
+                        let mut kept_ids = vec![];
+                        for (k, x) in inner.iter().enumerate() {
+                            if let (Inner::Keep(sz, a), Some(ip)) = (x, ptrs.get(k)) {
+                                if *ip != 0 {
+                                    let id = self.add_block(*ip, *sz, *a, true, vec![]);
+                                    self.fill_block(id);
+                                    self.blocks[id].kept_by_failed_init = true;
+                                    kept_ids.push(id);
+                                }
+                            }
+                        }
+                        // C11 / C01: what the failing fill closure allocated and kept is still allocated space of the arena
+                        if !kept_ids.is_empty() {
+                            if let Some(o) = self.observe() {
+                                for id in kept_ids {
+                                    let (bp, bs) = (self.blocks[id].ptr, self.blocks[id].size);
+                                    if bs > 0 && !o.it.iter().any(|(p, l)| *p <= bp && bp + bs <= p + l) {
+                                        let d = format!("block={}+{} it={:?}", hex(bp), bs, o.it.iter().map(|(p, l)| format!("{}+{}", hex(*p), l)).collect::<Vec<_>>());
+                                        self.fail("C11", "kept-block-released-by-rewind", d.clone());
+                                        self.fail("C01", "live-block-in-free-space", d);
+                                    }
+                                }
+                            }
+                        }
                         let e = errat.unwrap_or(usize::MAX);
                         let want: Vec<usize> = (0..=e.min(127)).collect();
                         if c != want {
@@ -1424,10 +1522,10 @@ impl<const M: usize> Exec<M> {
                             self.fail("C11", "error-duplicated", String::new());
                         }
                         // Rust layouts: align divides element size, so the slot is fully reusable
-                        if esz % eal == 0 {
+                        if esz % eal == 0 && inner.is_empty() {
                             self.last_failed_init = Some((total, eal));
                         }
-                        (Res::InitErr(vec![]), evs)
+                        (Res::InitErr(ptrs), evs)
                     }
                     Err(_) => {
                         if !c.is_empty() {
